@@ -7,8 +7,10 @@
      le_decode  = LowEntropy.decode                                              (extracted)
    T tag now nbox {nonce:ct:pt}* stream        extracted `feed` on an arbitrary (tampered) byte stream
         -> nseg {proto:sid:seq:plen:md5}* fail=<0|1>
-   E tag now nbox {nonce:ct:pt}* stream nsid {sid}*   the same, projected to what each session's application reads
+   E tag now nbox {nonce:ct:pt}* stream nsid {sid}* role   the same, through `session_in role sid`, projected to what each session's application reads
         -> {sid:len:md5}*
+   G tag nev {A:seq:payload | C}*              extracted `u_run`: what a UDP session releases to its application
+        -> len:md5
    U tag now nbox {nonce:ct:pt}* datagram      extracted `udp_parse` on an arbitrary datagram
         -> DROP | OK proto:sid:seq:plen:md5 *)
 open Model
@@ -52,6 +54,17 @@ let () =
   iter_lines cases (fun line ->
     let impl_line = (try input_line impl with End_of_file -> "") in
     let f = Array.of_list (split_ws line) in
+    if Array.length f >= 3 && f.(0) = "G" then begin
+      (* G tag nev {A:seq:payload | C}*  : the session's release of genuine sequenced segments in arrival order *)
+      let nev = int_of_string f.(2) in
+      let evs = List.init nev (fun i ->
+        match String.split_on_char ':' f.(3 + i) with
+        | ["A"; q; p] -> UArrive (nat_of_int (int_of_string q), bytes_of_hex p)
+        | _ -> UClose) in
+      let st = u_run evs in
+      let bytes = List.concat st.u_q in
+      print_endline (Printf.sprintf "%d:%s" (List.length bytes) (md5 bytes))
+    end else
     if Array.length f < 5 then print_endline "?" else
     let now = n_of_dec f.(2) in
     let nbox = int_of_string f.(3) in
@@ -69,8 +82,9 @@ let () =
       let obs = Array.of_list (split_ws impl_line) in
       let out = List.init nsid (fun i ->
         let sid = int_of_string f.(6 + nbox + i) in
-        let bytes = List.concat (List.filter_map (fun ((mi, pl) : rseg) ->
-          if int_of_n mi.mi_sid = sid && is_queued_p (int_of_n mi.mi_proto) then Some pl else None) segs) in
+        (* Session.input of the receiving side: role = C (client receives) | S; refused types end the session *)
+        let client = (6 + nbox + nsid < Array.length f) && f.(6 + nbox + nsid) = "C" in
+        let bytes = List.concat (List.map (fun ((_, pl) : rseg) -> pl) (session_in client (n_of_int sid) segs)) in
         let full = Printf.sprintf "%d:%d:%s" sid (List.length bytes) (md5 bytes) in
         if i < Array.length obs then
           (match String.split_on_char ':' obs.(i) with
